@@ -453,6 +453,9 @@ void Kernel::sys_exit(int status) {
   Proc *p = cp();
   if (!cur->killed) yield_point();
   p = cp();
+  // exit is a fault site for the two faults that make sense there: the machine (or the process) is stopped after the program's last
+  // operation and before anybody learns that it finished
+  if (!cur->killed && !p->in_vfork && !cur->native) { Fault *flt = match_fault(C_EXIT, ""); if (flt) generic_fault(this, flt); p = cp(); }
   reap_to_zombie(p, (status & 0xff) << 8);
   if (p->in_vfork) { req = R_VFORK_DONE; req_proc = p; req_exe = nullptr; cur->st = Task::BLOCKED; cur->ready = [] { return false; }; to_sched(); abort(); }
   req = R_EXIT;
